@@ -363,3 +363,112 @@ def run(prog, chk):
     n_loops = memrules.stuck_loops(prog, r5, only_units=("value.c", "container.c", "loop.c", "pktitr.c", "packet.c", "map.c", "cif.c"))
     if n_loops < 30:
         raise Broken("only %d loops found in the storage units" % n_loops)
+
+    r6 = chk.rule("R6-stored-attribute-survives", "an attribute read back from storage (assigned inside DESERIALIZE* / GET_VALUE_PROPS "
+                  "from a non-constant) is not replaced afterwards by a callee that assigns a constant to the same field of the "
+                  "same object", primary=False, floor=8)
+    n6 = clobber_rule(prog, r6)
+    if n6 < 8:
+        raise Broken("only %d storage-derived attribute stores found" % n6)
+
+
+READER_MACROS = ("DESERIALIZE", "DESERIALIZE_USTRING", "DESERIALIZE_QUOTED_FLAG", "GET_VALUE_PROPS", "GET_COLUMN_STRING",
+                 "GET_COLUMN_BYTESTRING")
+
+
+def const_mod_sets(prog):
+    """function name -> {field name: line}: fields whose *last* store through a parameter-rooted access path can be a
+    constant when the function returns (a constant store, or a call handing the parameter to a function with the field in
+    its own set, not followed on every path by a non-constant store of the field)."""
+    from ..facts import root_var
+    fns = {fn.name: fn for fn in prog.all_functions()}
+    mod = {name: {} for name in fns}
+    for _ in range(6):
+        changed = False
+        for name, fn in fns.items():
+            params = {p["name"] for p in fn.params}
+            # locals that alias (part of) a parameter's object: `struct numb_value_s *numb = &(n->as_numb)`
+            for _k in range(2):
+                for (b, i, r, n) in fn.eval_sites("decl"):
+                    for v in n.get("vars", []):
+                        if v.get("init") is not None and "*" in (v.get("t") or "") and root_var(v["init"]) in params:
+                            params.add(v["name"])
+            const_sites, data_sites = {}, {}
+            for (b, i, r, n) in fn.eval_sites("asg"):
+                l = strip(n.get("lhs"))
+                if not isinstance(l, dict) or l.get("k") != "member" or n.get("op") != "=" or root_var(l) not in params:
+                    continue
+                (const_sites if const(n.get("rhs")) is not None else data_sites).setdefault(l["name"], []).append((b.id, i, n.get("l")))
+            for (b, i, r, c) in fn.calls():
+                g = c.get("callee")
+                if g and g in mod and any(root_var(a) in params for a in c.get("args", [])):
+                    for fld, ln in mod[g].items():
+                        const_sites.setdefault(fld, []).append((b.id, i, ln))
+            for fld, sites in const_sites.items():
+                if fld in mod[name]:
+                    continue
+                ds = [(b, i) for (b, i, l) in data_sites.get(fld, [])]
+                for (b, i, ln) in sites:
+                    if not (ds and cfgq.must_follow(fn, (b, i), ds)):
+                        mod[name][fld] = ln
+                        changed = True
+                        break
+        if not changed:
+            break
+    return mod
+
+
+def clobber_rule(prog, rule):
+    from ..facts import root_var
+    mod = const_mod_sets(prog)
+    n = 0
+    for fn in prog.all_functions():
+        stores = []
+        for (b, i, r, a) in fn.eval_sites("asg"):
+            l = strip(a.get("lhs"))
+            if not isinstance(l, dict) or l.get("k") != "member" or a.get("op") != "=":
+                continue
+            if not any(m in READER_MACROS for m in (a.get("ms") or [])):
+                continue
+            if const(a.get("rhs")) is not None:
+                continue
+            stores.append((b.id, i, a, l))
+        if not stores:
+            continue
+        writes_root = {}
+        for (b, i, r, x) in fn.eval_sites():
+            if x.get("k") == "asg" and strip(x.get("lhs")).get("k") == "ref":
+                writes_root.setdefault(strip(x["lhs"])["name"], set()).add(b.id)
+            elif x.get("k") == "decl":
+                for v in x.get("vars", []):
+                    if v.get("init") is not None:
+                        writes_root.setdefault(v["name"], set()).add(b.id)
+        for (sb, si, a, l) in stores:
+            n += 1
+            fld, root = l["name"], root_var(l)
+            lp = path(l)
+            barrier = writes_root.get(root, set()) - {sb}
+            after = cfgq.reach(fn, [sb], barrier)
+            bad = None
+            for (cb, ci, cr, c) in fn.calls():
+                g = c.get("callee")
+                if not g or fld not in mod.get(g, {}):
+                    continue
+                if not any(root_var(x) == root for x in c.get("args", [])):
+                    continue
+                if not ((cb.id == sb and ci > si) or (cb.id != sb and cb.id in after)):
+                    continue
+                # re-stored afterwards on every path?
+                restores = [(b2, i2) for (b2, i2, a2, l2) in stores if path(l2) == lp and (b2, i2) != (sb, si)]
+                if restores and cfgq.must_follow(fn, (cb.id, ci), restores):
+                    continue
+                bad = (c, g)
+            key = "%s:%s@L%s" % (fn.name, lp, a.get("l"))
+            if bad:
+                c, g = bad
+                rule.violation(fn.file, fn.name, c.get("l"), "attribute-clobbered:%s:%s" % (fn.name, fld),
+                               "`%s` is read back from storage at L%s, but the later call to %s (L%s) assigns a constant to `%s` of "
+                               "the same object (at L%s): the stored attribute is lost" % (lp, a.get("l"), g, c.get("l"), fld, mod[g][fld]))
+            else:
+                rule.ok(key, "no later callee overwrites `%s` with a constant" % fld)
+    return n
